@@ -86,7 +86,13 @@ def r2_r4(ctx):
         return
     loop = loops[0]
     sv = dotted(loop.target)
-    val_defs = assignments_to(f.node, "val")
+    # the one store into the result mapping inside the loop names the key and value variables
+    stores_ = [s2 for s2 in ast.walk(loop) if isinstance(s2, ast.Assign) and isinstance(s2.targets[0], ast.Subscript) and isinstance(s2.value, ast.Name) and isinstance(s2.targets[0].slice, ast.Name)]
+    if len(stores_) != 1:
+        ctx.ob("R4", "AGREE", f, "mapping store", False, f"expected one `<mapping>[<key>] = <value>` store in the loop, found {len(stores_)}", loop)
+        return
+    VAL, KEY = stores_[0].value.id, stores_[0].targets[0].slice.id
+    val_defs = assignments_to(f.node, VAL)
     want = {"TYPE_SHORT": (2, "big", False), "TYPE_INT": (4, "big", False)}
     seen = set()
     for st, v in val_defs:
@@ -105,7 +111,7 @@ def r2_r4(ctx):
                 for m in want:
                     if guarded_by(ctx, f, v, lambda t, m=m: True if _type_test(t, m) else None):
                         member = m
-                arg_ok = v.args and dotted(v.args[0]) == "val"
+                arg_ok = v.args and dotted(v.args[0]) == VAL
                 ok = member is not None and want[member] == (size, bo, bool(sg)) and arg_ok
                 if member:
                     seen.add(member)
@@ -114,7 +120,7 @@ def r2_r4(ctx):
                        f"under type=={member}: unpack(size={size}, byteorder={bo}, signed={sg}) of val; required {want.get(member)}; applied when parse/pretty={pp}", st)
                 continue
             # pretty function application
-            if dotted(v.func) == "pretty_func" or (isinstance(origin(f.node, v.func), ast.Call) and "SETTING_TO_PRETTYFUNC" in src(origin(f.node, v.func))):
+            if isinstance(origin(f.node, v.func), ast.Call) and "SETTING_TO_PRETTYFUNC" in src(origin(f.node, v.func)) and v.args and dotted(v.args[0]) == VAL:
                 pg = guarded_by(ctx, f, v, lambda t: True if dotted(t) == "pretty" else None)
                 ctx.ob("R2", "AGREE", f, src(st), pg, "pretty function applied only under `pretty`" if pg else "pretty function applied when pretty is off (raw views would differ)", st)
                 continue
@@ -123,7 +129,7 @@ def r2_r4(ctx):
     dflt = param_defaults(f.node)
     ctx.ob("R2", "AGREE", f, "parse default", is_const(dflt.get("parse"), True) and is_const(dflt.get("pretty"), False), f"defaults parse={src(dflt.get('parse'))} pretty={src(dflt.get('pretty'))}", f.node)
     # key selection
-    key_defs = assignments_to(f.node, "key")
+    key_defs = assignments_to(f.node, KEY)
     kmap = {}
     for st, v in key_defs:
         for name in ("name", "const"):
@@ -152,9 +158,9 @@ def r2_r4(ctx):
         defs = [v for st, v in assignments_to(f.node, acc)]
         d_ok = len(defs) == 1 and isinstance(defs[0], ast.Call) and dotted(defs[0].func) in ("OrderedDict", "dict", "collections.OrderedDict") and not defs[0].args
         stores = [s for s in ast.walk(loop) if isinstance(s, ast.Assign) and isinstance(s.targets[0], ast.Subscript) and dotted(s.targets[0].value) == acc]
-        s_ok = len(stores) == 1 and dotted(stores[0].targets[0].slice) == "key" and dotted(stores[0].value) == "val"
+        s_ok = len(stores) == 1 and dotted(stores[0].targets[0].slice) == KEY and dotted(stores[0].value) == VAL
         reorder = [src(c) for c in fn_calls(f.node) if (isinstance(c.func, ast.Attribute) and c.func.attr in ("sort", "reverse", "move_to_end", "popitem", "pop", "clear")) or dotted(c.func) in ("sorted", "reversed")]
-        ctx.ob("R4", "AGREE", f, f"{acc}[key] = val", d_ok and s_ok and not reorder,
+        ctx.ob("R4", "AGREE", f, "mapping[key] = val", d_ok and s_ok and not reorder,
                f"fresh ordered mapping={d_ok}; one insertion per setting in iteration order={s_ok}; reordering calls={reorder}", loop)
     init = ctx.repo.func("beacon.BeaconConfig.__init__")
     ok = False
